@@ -72,8 +72,14 @@ class Ctx:
         try:
             if not os.path.exists(stamp):
                 env = dict(os.environ); env['CARGO_NET_OFFLINE'] = 'true'; env.pop('RUSTFLAGS', None)
-                lockf = os.path.join(VERIF, 'replay', 'Cargo.lock')
-                r = subprocess.run(['cargo', 'build', '--offline', '--target-dir', REPLAY_TARGET], cwd=os.path.join(VERIF, 'replay'),
+                rdir = os.path.join(VERIF, 'replay')
+                if dump.REPO != '/repo':
+                    # checks pointed at another tree (VERIF_REPO, used for seeded changes in scratch worktrees): the replay driver must be built against that tree
+                    import shutil
+                    rdir = os.path.join(WORK, 'replay-src'); shutil.rmtree(rdir, ignore_errors=True); shutil.copytree(os.path.join(VERIF, 'replay'), rdir)
+                    ct = open(os.path.join(rdir, 'Cargo.toml')).read().replace('"/repo/', '"%s/' % dump.REPO)
+                    open(os.path.join(rdir, 'Cargo.toml'), 'w').write(ct)
+                r = subprocess.run(['cargo', 'build', '--offline', '--target-dir', REPLAY_TARGET], cwd=rdir,
                                    env=env, capture_output=True, text=True)
                 if r.returncode != 0: raise RuntimeError('replay driver build failed:\n' + r.stderr[-3000:])
                 r = subprocess.run(['cargo', 'build', '--offline', '-p', 'ironplcc', '--bin', 'ironplcc', '--target-dir', REPLAY_TARGET],
@@ -85,13 +91,13 @@ class Ctx:
         finally:
             fcntl.flock(lock, fcntl.LOCK_UN)
         self._replay_ready = True
-    def replay(self, cmds):
+    def replay(self, cmds, timeout=120):
         """run JSON command(s) through the replay driver (public API of the real crates)"""
         self.ensure_replay()
         single = isinstance(cmds, dict)
         p = os.path.join(self.tmp, 'cmd-%d.json' % int(time.time() * 1e6))
         with open(p, 'w') as f: json.dump([cmds] if single else cmds, f)
-        r = subprocess.run([os.path.join(REPLAY_TARGET, 'debug', 'vreplay'), p], capture_output=True, text=True, timeout=120)
+        r = subprocess.run([os.path.join(REPLAY_TARGET, 'debug', 'vreplay'), p], capture_output=True, text=True, timeout=timeout)
         if r.returncode != 0: raise RuntimeError('vreplay failed: rc=%d %s' % (r.returncode, r.stderr[-2000:]))
         out = json.loads(r.stdout)
         return out[0] if single else out
@@ -331,3 +337,16 @@ def all_models(solver, terms, limit=400):
         solver.add(z3.Or([t != v for t, v in zip(terms, vals)]) if terms else z3.BoolVal(False))
     solver.pop()
     return out
+
+
+def check_arith(constraints, timeout_s=60):
+    """Decide a bit-vector query dominated by multiply / divide by constants: first the default (bit-blasting) solver under a short cap, then z3's
+    integer-blasting bit-vector solver (smt.bv.solver=2), which keeps the mod-2^k semantics and decides q*d+r=a identities that bit-blasting does not finish.
+    Returns (result, model or None, engine name)."""
+    import z3
+    s = z3.Solver(); s.set('timeout', 4000); s.add(*constraints)
+    r = s.check()
+    if r != z3.unknown: return r, (s.model() if r == z3.sat else None), 'z3 bit-blast'
+    s2 = z3.SimpleSolver(); s2.set('smt.bv.solver', 2); s2.set('timeout', int(timeout_s * 1000)); s2.add(*constraints)
+    r = s2.check()
+    return r, (s2.model() if r == z3.sat else None), 'z3 int-blast'
